@@ -227,66 +227,51 @@ def r3_best_batch(ctx: Context) -> None:
         ok = iv is not None and iv[0] == "0" and iv[1] == "batch_size"
         ctx.check(ok, "R3.parents", "BestBatchSampler.sample_batch:parent-index-range",
                   "parent indices are drawn in [0, batch_size)", f"parent indices are `{src(ie)}`", sb, ie)
-    # shocks
-    loops = [s for s in walk_scope(sb.node) if isinstance(s, ast.For)]
-    ctx.floor("R3", "loops in BestBatchSampler.sample_batch", len(loops), 2)
-    assigns = {t.id: s.value for s in walk_scope(sb.node) if isinstance(s, (ast.Assign, ast.AnnAssign)) and s.value is not None
-               for t in ([s.target] if isinstance(s, ast.AnnAssign) else s.targets) if isinstance(t, ast.Name)}
-    # number of shocked coordinates: rvs(size=1) + 1 with betabinom(n = dims - 1)
-    ns = assigns.get("num_shocks")
-    rv = assigns.get("beta_binom_rv")
-    ok = ns is not None and rv is not None and str(n.rat(ns)).replace(" ", "") in ("1+beta_binom_rv.rvs(size=1)",) \
-        and isinstance(rv, ast.Call) and kwarg(rv, "n", 0) is not None and str(n.rat(kwarg(rv, "n", 0))) == str(n.rat(parse_expr("search_space.dims - 1")))
-    ctx.check(ok, "R3.shock-count", "BestBatchSampler.sample_batch:num_shocks",
-              "1 + BetaBinom(dims-1) coordinates are shocked: at least one and at most dims",
-              f"num_shocks is `{src(ns) if ns else '?'}` with rv `{src(rv) if rv else '?'}`", sb, ns or sb.node)
-    ps = assigns.get("params_shocked")
-    ok = isinstance(ps, ast.Call) and (dotted(ps.func) or "").endswith("random_generator.choice") and ps.args and str(n.rat(ps.args[0])) == "search_space.dims" \
-        and isinstance(kwarg(ps, "replace", 2), ast.Constant) and kwarg(ps, "replace", 2).value is False
-    ctx.check(ok, "R3.shock-count", "BestBatchSampler.sample_batch:params_shocked",
-              "shocked coordinates are distinct indices below dims (choice without replacement)",
-              f"shocked coordinates are `{src(ps) if ps else '?'}`", sb, ps or sb.node)
-    sz = assigns.get("shock_size")
-    iv = _int_draw_interval(n, sz) if sz is not None else None
-    ctx.check(iv is not None and iv[0] == "1" and iv[1] == "self.perturbation_range", "R3.shock-size", "BestBatchSampler.sample_batch:shock_size",
-              "shock size is drawn in [1, perturbation_range) = 1 .. perturbation_range-1 steps", f"shock size is `{src(sz) if sz else '?'}`", sb, sz or sb.node)
-    sg = assigns.get("shock_sign")
-    ok = False
-    if sg is not None:
-        # a*2 - 1 with a in integers(0, 2)
-        for cand in ast.walk(sg):
-            if isinstance(cand, ast.Call):
-                civ = _int_draw_interval(n, cand)
-                if civ == ("0", "2"):
-                    u = n.rat(sg)
-                    atom = str(n.rat(cand))
-                    from ..poly import Rat, p_atom, p_const
-                    ok = u.equals(Rat(p_atom(atom)) * Rat(p_const(2)) - Rat(p_const(1)))
-    ctx.check(ok, "R3.shock-sign", "BestBatchSampler.sample_batch:shock_sign", "shock sign is 2*{0,1}-1 in {-1,+1}",
-              f"shock sign is `{src(sg) if sg else '?'}`", sb, sg or sb.node)
-    # shift = precision[index] * sign * size applied to that index, then confined to the bounds of that index
-    inner = [s for s in walk_scope(sb.node) if isinstance(s, ast.For) and isinstance(s.iter, ast.Name) and s.iter.id == "params_shocked"]
-    ok = False
+    # shocks: everything is read off the two nested loops and the displacement statement, with locals inlined (names do not matter)
+    rows = [s for s in walk_scope(sb.node) if isinstance(s, ast.For)]
+    ctx.floor("R3", "loops in BestBatchSampler.sample_batch", len(rows), 2)
+    inner = None
+    outer = None
+    for lp in rows:
+        for sub in ast.walk(lp):
+            if isinstance(sub, ast.For) and sub is not lp:
+                outer, inner = lp, sub
+    if inner is None or not isinstance(inner.target, ast.Name) or not isinstance(outer.target, ast.Name):
+        raise AnalysisError(f"{sb.loc(sb.node)}: best-batch no longer has the row loop / shocked-coordinate loop structure; cannot decide R3")
+    ix, row = inner.target.id, outer.target.id
+    # which coordinates are shocked: choice(dims, 1 + BetaBin(dims - 1), replace=False) -> between 1 and dims distinct coordinates
+    it = n.rat(inner.iter)
+    forms = set()
+    for cnt in ("beta_binom_rv.rvs(size=1) + 1",):
+        for ctor in ("betabinom(n=search_space.dims - 1, a=self.a, b=self.b)",):
+            e1 = f"self.random_generator.choice(search_space.dims, tuple({ctor}.rvs(size=1) + 1), replace=False)"
+            forms.add(str(n.rat(parse_expr(e1))))
+    ctx.check(str(it) in forms, "R3.shock-count", "BestBatchSampler.sample_batch:shocked-coordinates",
+              "between 1 and dims distinct coordinates are shocked: choice(dims, 1 + BetaBinom(dims-1, a, b).rvs, replace=False)",
+              f"shocked coordinates are drawn as `{str(it)[:200]}`", sb, inner.iter)
+    # the frozen distribution draws from the sampler's own generator (seed discipline, C01) - name independent
+    rv_names = [s.targets[0].id for s in walk_scope(sb.node) if isinstance(s, ast.Assign) and isinstance(s.targets[0], ast.Name) and isinstance(s.value, ast.Call) and (dotted(s.value.func) or "").split(".")[-1] == "betabinom"]
+    ok = bool(rv_names) and any(isinstance(s, ast.Assign) and src(s.targets[0]) == f"{rv_names[0]}.random_state" and src(s.value) == "self.random_generator" for s in walk_scope(sb.node))
+    ctx.check(ok, "R3.shock-count", "BestBatchSampler.sample_batch:rv-generator", "the beta-binomial draws use the sampler's own generator", "the frozen rv does not use self.random_generator", sb, sb.node)
+    # displacement: row[index] += precision[index] * (2*integers(0,2) - 1) * integers(1, perturbation_range)
+    disp = [s for s in ast.walk(inner) if isinstance(s, ast.AugAssign) and isinstance(s.op, ast.Add) and isinstance(s.target, ast.Subscript) and src(s.target.value) == row and src(s.target.slice) == ix]
+    ctx.check(len(disp) == 1, "R3.shift", "BestBatchSampler.sample_batch:one-displacement", "each shocked coordinate is displaced once", f"{len(disp)} displacement statements", sb, inner)
+    if disp:
+        got = n.rat(disp[0].value)
+        want = n.rat(parse_expr(f"search_space.parameters_precision[{ix}] * ((self.random_generator.integers(0, 2) * 2) - 1) * self.random_generator.integers(1, self.perturbation_range)"))
+        ctx.check(got.equals(want), "R3.shift", "BestBatchSampler.sample_batch:shift",
+                  "coordinate `index` moves by precision[index] * sign * size with sign = 2*integers(0,2)-1 in {-1,+1} and size = integers(1, perturbation_range) in 1..range-1",
+                  f"the displacement is `{str(got)[:260]}`", sb, disp[0])
+    clips = [s for s in ast.walk(inner) if isinstance(s, ast.Assign) and isinstance(s.targets[0], ast.Subscript) and src(s.targets[0].value) == row and src(s.targets[0].slice) == ix
+             and isinstance(s.value, ast.Call) and (dotted(s.value.func) or "").endswith("clip")]
     clip_ok = False
-    if inner and isinstance(inner[0].target, ast.Name):
-        ix = inner[0].target.id
-        row = None
-        for s in ast.walk(inner[0]):
-            if isinstance(s, ast.AugAssign) and isinstance(s.op, ast.Add) and isinstance(s.target, ast.Subscript) and src(s.target.slice) == ix:
-                got = n.rat(s.value)
-                want = n.rat(parse_expr(f"search_space.parameters_precision[{ix}] * shock_sign * shock_size"))
-                ok = got.equals(want)
-                row = src(s.target.value)
-            if isinstance(s, ast.Assign) and isinstance(s.targets[0], ast.Subscript) and src(s.targets[0].slice) == ix and isinstance(s.value, ast.Call) and (dotted(s.value.func) or "").endswith("clip"):
-                a = [src(x) for x in s.value.args]
-                clip_ok = len(a) == 3 and a[0] == src(s.targets[0]) and a[1] == f"search_space.parameters_bounds[0][{ix}]" and a[2] == f"search_space.parameters_bounds[1][{ix}]"
-        outer = [s for s in walk_scope(sb.node) if isinstance(s, ast.For) and any(x is inner[0] for x in ast.walk(s)) and s is not inner[0]]
-        if outer and row is not None:
-            ok = ok and isinstance(outer[0].target, ast.Name) and outer[0].target.id == row
-    ctx.check(ok, "R3.shift", "BestBatchSampler.sample_batch:shift", "coordinate `index` moves by precision[index]*sign*size",
-              "the displacement is not precision[index] * sign * size on the shocked coordinate", sb, inner[0] if inner else sb.node)
+    for s in clips:
+        a = [src(x) for x in s.value.args]
+        clip_ok = len(a) == 3 and a[0] == f"{row}[{ix}]" and a[1] == f"search_space.parameters_bounds[0][{ix}]" and a[2] == f"search_space.parameters_bounds[1][{ix}]"
     ctx.check(clip_ok, "R3.confine", "BestBatchSampler.sample_batch:clip", "the shocked coordinate is confined to [lower[index], upper[index]]",
-              "the shocked coordinate is not clipped to its own bounds", sb, inner[0] if inner else sb.node)
+              "the shocked coordinate is not clipped to its own bounds", sb, inner)
+    # the rows being shocked are the copies of the parents
+    ctx.check(isinstance(outer.iter, ast.Name), "R3.parents", "BestBatchSampler.sample_batch:rows-shocked", "the shocked rows are the selected parents", f"outer loop iterates `{src(outer.iter)}`", sb, outer)
 
 
 def _int_draw_interval(n, e: ast.expr) -> tuple[str, str] | None:
